@@ -334,8 +334,9 @@ class Program(object):
     def add(self, call):
         self.calls.append(call)
 
-    def source(self):
-        body = "".join("    %s;\n    prints(\"#\\n\");\n" % c.expr for c in self.calls)
+    def source(self, only=None):
+        calls = self.calls if only is None else [only]
+        body = "".join("    %s;\n    prints(\"#\\n\");\n" % c.expr for c in calls)
         return "%s\nfunc main() -> int\n{\n%s    0\n}\n" % (self.decls, body)
 
 
@@ -812,11 +813,16 @@ def run_probes(ctx, nevrun):
         lines, outcome, status = r
         vals = [ln for ln in lines if ln and not ERR_RE.match(ln) and ln != "#"]
         ncalls += 1
-        if vals != c.get("expected") or status != "0":
-            san = sanitizer_summary(lines)
-            ctx.violation(c["key"], c.get("what", "corpus case fails") + " — observed: " + (san or show_obs(vals)),
-                          {"program": c["src"], "expected": c.get("expected"), "observed": vals,
-                           "sanitizer": san, "status": status, "corpus": True})
+        san = sanitizer_summary(lines)
+        good = status == "0" and vals in c.get("expected_one_of", [])
+        if c.get("accept_out_of_memory") and san is None and status == "1" and "out of memory" in "\n".join(lines):
+            good = True
+        if not good:
+            ctx.violation(c["key"], c.get("what", "corpus case fails") + " — observed: " + (
+                "crash: " + san if san else show_obs(vals) + " (status %s)" % status),
+                          {"program": c["src"], "expected_one_of": [show_obs(e) for e in c.get("expected_one_of", [])],
+                           "observed": vals[-3:], "sanitizer": san, "status": status, "corpus": True,
+                           "run": "put '@@@ x' + program into a file; <asan build>/nevrun --batch file"})
 
     for p in progs:
         r = results.get(p.pid)
@@ -846,9 +852,9 @@ def run_probes(ctx, nevrun):
                 if vals and vals[-1] in EXC_NAME:
                     st["exceptions"] += 1
                     raised.add((c.cls, c.kind))
-            replay = {"program": p.source(), "call": c.expr, "case": c.descr,
+            replay = {"program": p.source(only=c), "call": c.expr, "case": c.descr, "probe_program": p.pid,
                       "expected": show_obs(c.expect), "observed": obs_txt,
-                      "run": "nevrun --batch <file with '@@@ x' header + program> (ASan build)"}
+                      "run": "put '@@@ x' + program into a file; <asan build>/nevrun --batch file"}
             # -- the property --------------------------------------------------------------------
             if c.kind == "extent-product-overflow":
                 # any orderly outcome is accepted: a value, an exception, the VM's "out of memory" exit(1)
@@ -879,7 +885,7 @@ def run_probes(ctx, nevrun):
                             obs_txt += " (reported dimensions %s)" % ds
                 if not ok:
                     first_model_diff[c.cls] = {"case": c.descr, "call": c.expr, "model": ans, "model_lines": pred,
-                                               "observed": obs_txt, "program": p.source()[:3000]}
+                                               "observed": obs_txt, "program": p.source(only=c)}
             if crashed:
                 break
 
